@@ -167,6 +167,9 @@ Correct ==
 InBounds == \A ph \in 1..Len(todo) : \A t \in 1..Len(todo[ph]) :
                /\ todo[ph][t][1] \in 0..(Pow2(lb) - 1)
                /\ todo[ph][t][2] \in 0..(Pow2(lb) - 1)
+\* the chunked variant is only entered with at least 4 elements (the code's debug_assert; follows from
+\* SMALL_ARR_SIZE >= 4 * BIG_T_SIZE), also for elements of several KiB where it starts at 8 elements
+ChunkedSize == kind = "inplace" /\ ~UsesSmall(es, lb) => Pow2(lb) >= 4 /\ Len(todo) <= (IF lb % 2 = 0 THEN 3 ELSE 4)
 \* reverse_bits(n, num_bits) of plonky2/src/util/mod.rs: n.reverse_bits() >> (BITS - num_bits), shift wrapping
 ASSUME \A nb \in 0..MaxLb : \A i \in 0..(Pow2(nb) - 1) : WrapShr(RevW(i), WB - nb) = Rev(i, nb)
 =============================================================================
